@@ -67,6 +67,10 @@ func ParseDecimal(b []byte) (float64, int) {
 	} else if -22 <= exp && exp < 0 { // int / 10^k
 		return f / float64pow10[-exp], i
 	}
+	if exp < -290 {
+		// keep the intermediate value normal: powers of ten below 1e-308 are subnormal and have few significant bits
+		return f * math.Pow10(exp+290) * 1e-290, i
+	}
 	return f * math.Pow10(exp), i
 }
 
